@@ -88,7 +88,10 @@ def gen_files(ctx, n_files):
     while len(out) < n_files and tries < n_files * 40:
         kw = forced[len(out)] if len(out) < len(forced) else {}
         tries += 1
-        wt = B.gen_triangle(rng, max_keys=rng.choice([3, 6, 12, 24]), **kw)
+        if len(out) == 5:
+            wt = B.gen_calendar_triangle(rng, n=4)
+        else:
+            wt = B.gen_triangle(rng, max_keys=rng.choice([3, 6, 12, 24]), restate_p=0.15, **kw)
         if not wt:
             continue
         tri = B.mk_triangle(wt)
